@@ -1,4 +1,5 @@
 import SlocModel.Counter.Count
+import SlocModel.Counter.Grammar
 import SlocModel.Generated.Languages
 /-!
   C02 — Line classification agrees with lexical ground truth, incl. ignore directives.
@@ -253,7 +254,6 @@ theorem only_python_quote_markers :
 
 /-! ### Tier B: the unrestricted token-level statement is false of the pinned code -/
 
-def cSyn : Syntax := { single := [['/', '/']], multi := [MultiLine.plain ['/', '*'] ['*', '/']] }
 def rustSyn : Syntax :=
   { single := [['/', '/'], ['/', '/', '/'], ['/', '/', '!']],
     multi := [{ MultiLine.plain ['/', '*'] ['*', '/'] with nesting := true },
